@@ -46,6 +46,7 @@ Checks(e) ==
     [] e[1] = "dims" ->
         [DimsSquarest |-> IF e[2] > 1 /\ e[2] % 3 # 0 THEN e[3] = 0
                           ELSE e[3] = 1 /\ <<e[4], e[5]>> = StandardDims(e[2])]
+    [] e[1] = "raise" -> [NoException |-> FALSE]
     [] OTHER -> [UnknownEvent |-> FALSE]
 
 Bad == {c \in DOMAIN Checks(Ev) : ~Checks(Ev)[c]}
